@@ -13,7 +13,8 @@ EXPLANATION = (
     "fastrand::u64(0..250); (d) no answers while probing (status guards, shared with C06a); (e) every first successful "
     "announce schedules Command::RegisterResend at +1000 with a timer, and the resend handler finds the service (F5 on "
     "my_services); (f) announcement record set.  Decides these mechanisms, not bounded-time liveness or wire spacing."
-    " (g) Every `false` result of is_probing_done has put the service on the probe's waiting list.")
+    " (g) Every `false` result of is_probing_done has put the service on the probe's waiting list."
+    " (h) Every retain on the rerun queue keeps the commands of other kinds (announcement repeats survive a stop_browse). (i) add_interface writes the status after every announce attempt (a stale Announced cannot cover a registry that probes again).")
 UNDECIDED = ["'reaches the announced state within a bounded time' (liveness)", "actual spacing of probe packets on the wire",
              "several services sharing a host name (value-level interplay of probes)"]
 
@@ -289,6 +290,9 @@ def clause_waiters(ctx, P):
 
 
 def run(ctx, P):
+    from . import r2
+    r2.purges_keep_other_commands(ctx, P, "C07h")
+    r2.interface_rules(ctx, P, "C07i", want=("status",))
     clause_waiters(ctx, P)
     clause_a(ctx, P)
     clause_b(ctx, P)
